@@ -138,6 +138,24 @@ def rule_d(R, ctx):
     ok = bool(latch) and latch[0].bb == 0 or (bool(latch) and cfg.dominates(latch[0].bb, e1[0].bb))
     guarded = v.has_guard(e1[0].bb, lambda l: simp(l.term)[0] == "field" and simp(l.term)[1].endswith("TransactionMut.committed") and l.polarity is False)
     R.ob("C07.d", fn, "latch", ok and guarded, "emit requires committed == false at entry: %s" % guarded)
+    # the emission is decided by the latch and by the presence of the event registry alone: whether any shared type changed
+    # (`changed`), whether observers were called, ... says nothing about whether the state vector or the delete set moved —
+    # blocks integrated under an already deleted parent enter no type's change list
+    for cs in e1 + e2:
+        extra = []
+        for l in v.guards(cs.bb):
+            t = simp(l.term)
+            if t[0] == "field" and t[1].endswith("TransactionMut.committed"):
+                continue
+            if l.polarity == "Some" and term_has_field(simp_deep(l.term), "Store.events"):
+                continue
+            if l.polarity == "None" and t[0] == "call" and re.search(r"Iterator>?::next$", t[1]):
+                continue   # a preceding loop (squash passes) ran to exhaustion
+            extra.append(l.desc[:90])
+        R.ob("C07.d", fn, "unconditional:" + cs.name.rsplit("::", 1)[-1], not extra,
+             "reached under the latch and `store.events is Some` only" if not extra else
+             "the emission is additionally decided by %s: transactions that move the state vector or the delete set without "
+             "satisfying it emit no update" % extra[:2], cs.loc())
     sets = [(i, j, s) for i, j, s in fn.field_writes("TransactionMut.committed")]
     ok = len(sets) >= 1 and all(s["rv"].get("use", {}).get("k") == 1 for i, j, s in sets) and all(cfg.dominates(i, e1[0].bb) for i, j, s in sets)
     R.ob("C07.d", fn, "latch-set", ok, "committed := true before anything is emitted: %s" % ok)
